@@ -251,7 +251,9 @@ func (k Keeper) WasmUpdatePairsVault(ctx sdk.Context, updatePairVault *bindings.
 				ExtPairVaultData.BlockTime = ctx.BlockTime()
 				ExtPairVaultData.BlockHeight = 0
 			} else if ExtPairVaultData.StabilityFee.IsZero() {
-				// do nothing
+				// nothing accrues at a zero fee, but vaults touched while the fee was off carry their own timestamp:
+				// move every vault's accrual start to now so the switched-off period is not charged at the new fee
+				k.VaultIterateRewards(ctx, ExtPairVaultData.StabilityFee, ExtPairVaultData.BlockHeight, ExtPairVaultData.BlockTime.Unix(), updatePairVault.AppID, ExtPairVaultData.Id, true)
 				ExtPairVaultData.BlockHeight = ctx.BlockHeight()
 				ExtPairVaultData.BlockTime = ctx.BlockTime()
 			} else if ExtPairVaultData.StabilityFee.GT(sdk.ZeroDec()) && updatePairVault.StabilityFee.GT(sdk.ZeroDec()) {
